@@ -233,9 +233,8 @@ func (t *tokenizer) Next() error {
 			t.unread(c)
 			return t.ok(tokenSymbolOperator, true)
 		}
-		if c2 == ' ' || isIdentifierPart(c2) {
-			t.unread(c)
-		}
+		// The dot is read back as the text of the symbol, whatever follows it.
+		t.unread(c)
 
 		return t.ok(tokenDot, false)
 
